@@ -107,6 +107,50 @@ def history(seed):
             pass
 
 
+def sibling(name, scale, seed):
+    """The SAME kind of operation as the probe on a design that shares the probe's primary description (die outline and
+    regions, module names, trunk rectangle, constraint left-hand sides, netlist) but differs in everything else: what a memo
+    with an incomplete key, or a registry indexed by name, would confuse with the probe's design (added after seed C20-5)."""
+    from frame.netlist.netlist import Netlist
+    from frame.die.die import Die
+    from frame.allocation.allocation import create_initial_allocation
+    from frame.geometry.geometry import Rectangle, Point, Shape, create_stog
+    from frame.utils.utils import write_yaml
+    rng = random.Random(seed)
+    s = scale
+    try:
+        with contextlib.redirect_stdout(io.StringIO()):
+            if name == "load":
+                Netlist(write_yaml(netlist_doc(s, 4, rng.choice([0, 2, 3]))))        # same module names, other kinds and places
+            elif name == "die":
+                spec = {"width": 20 * s, "height": 14 * s, "regions": [[2 * s, 12 * s, 4 * s, 4 * s, "#"], [15 * s, 3 * s, 6 * s, 2 * s, "DSP"]]}
+                if rng.random() < 0.5:
+                    Die(write_yaml(spec))                                                # same die, no netlist
+                else:
+                    Die(write_yaml(spec), Netlist(write_yaml(netlist_doc(s, 3, rng.choice([0, 1])))))   # same die, other fixed modules
+            elif name == "refine":
+                n = Netlist(write_yaml(netlist_doc(s, 3, rng.choice([0, 1]))))
+                d = Die(f"{20 * s}x{14 * s}", n)
+                d.split_refinable_regions(2.0, rng.choice([2, 4, 6]))
+                create_initial_allocation(d).refine(0.6, 1).griddify()
+            elif name == "stog":
+                rs = [Rectangle(center=Point(5 * s, 5 * s), shape=Shape(4 * s, 4 * s)), Rectangle(center=Point(5 * s, 2.5 * s), shape=Shape(2 * s, 1 * s))]
+                if not Rectangle.epsilon_defined():
+                    Rectangle.set_epsilon(1e-12 * s)
+                create_stog(rs)
+            elif name == "sat":
+                for coefs, b in rng.sample(SAT_POOL, 4):
+                    sat_encode(coefs, b + rng.choice([1, -1, 2]), rng.random() < 0.5).solve()
+            elif name == "legal":
+                import tools.legalfloor.legalfloor as lf
+                n = Netlist(write_yaml({"Modules": {"A": {"area": 9 * s * s, "rectangles": [[3 * s, 3 * s, 3 * s, 2 * s], [3 * s, 5 * s, 1 * s, 2 * s]]},
+                                                    "F": {"fixed": True, "rectangles": [[9 * s, 2 * s, 2 * s, 2 * s]]}}, "Nets": [["A", "F"]]}))
+                ml, al, xl, yl, wl, hl, hyper, names = lf.netlist_to_utils(n)
+                lf.Model(ml, al, xl, yl, wl, hl, 12.0 * s, 10.0 * s, hyper, 3.0, names, 0.9, 0.3, 1.0, 1)
+    except Exception:  # noqa: only the probe matters
+        pass
+
+
 def probe(name, scale):
     from frame.netlist.netlist import Netlist
     from frame.die.die import Die
@@ -213,7 +257,10 @@ def probe(name, scale):
 def main():
     name, hist = sys.argv[1], sys.argv[2]
     scale = float(sys.argv[3]) if len(sys.argv) > 3 else 1.0
-    if hist != "none":
+    if hist.startswith("sib"):          # a random history followed by a sibling of the probe's own design
+        history(int(hist[3:]))
+        sibling(name, scale, int(hist[3:]))
+    elif hist != "none":
         history(int(hist))
     res = probe(name, scale)
     txt = json.dumps(res, sort_keys=True, default=str)
